@@ -237,6 +237,29 @@ def run_case(ck, cfg, mode, chooser=None, sched_seed=0, stats=None):
             if not damaged:
                 ck.observe("damage-not-applicable")
         out["damaged"] = damaged
+        if cfg.get("dupshare"):
+            # one share number on two servers (what a server that was away during one write leaves behind): every
+            # later publish has two writers for that share number.  One of the two answers its writes late.
+            holders0 = [vs_.name for (vs_, sh_, _) in g.find_shares(si) if sh_ == 0]
+            broker = c.get_storage_broker()
+            if holders0 and nservers >= 2:
+                broker.vf_hidden.add(holders0[0])
+                if target == "file":
+                    st, _r = g.wait(n1.overwrite(MutableData(b"base2")))
+                    initial = b"base2"
+                    out["seq0"] = 2
+                else:
+                    st, _r = g.wait(n1.set_node("dup-seed", c.create_node_from_uri(lit)))
+                    existing.append("dup-seed")
+                broker.vf_hidden.discard(holders0[0])
+                holders = sorted(vs_.name for (vs_, sh_, _) in g.find_shares(si) if sh_ == 0)
+                if st == "ok" and len(holders) >= 2:
+                    ck.hit("share-number-on-two-servers")
+                    slow = holders[cfg.get("dup_slow", 0) % len(holders)]
+                    [vs_ for vs_ in g.servers if vs_.name == slow][0].add_fault(
+                        "delay", method=M.WRITE, delay=cfg.get("dup_delay", 3.0))
+                else:
+                    ck.observe("dupshare-not-produced")
         mon = M.WireMon(g, si)
         mon.nsent = 0
         _orig_on_send = mon.on_send
@@ -267,6 +290,11 @@ def run_case(ck, cfg, mode, chooser=None, sched_seed=0, stats=None):
             setup_records = len(recorder.records)
             for (sidx, meth, nth) in cfg.get("faults", ()):
                 g.servers[sidx % nservers].add_fault("raise", method=meth, nth=nth)
+            EXC = {"ConnectionRefusedError": ConnectionRefusedError, "TimeoutError": TimeoutError, "OSError": OSError}
+            for (sidx, meth, nth, excname) in cfg.get("cfaults", ()):
+                # the request fails on the client side with a bare exception (what the HTTP storage client raises
+                # when a server is gone), not with a foolscap RemoteException / DeadReferenceError
+                M.client_fault(g, g.servers[sidx % nservers].name, EXC[excname], method=meth, nth=nth, tag="C")
             done_order = []
             held = cfg.get("how", "held") == "held"
             weak = []
@@ -353,6 +381,20 @@ def run_case(ck, cfg, mode, chooser=None, sched_seed=0, stats=None):
                         op["box"].append(res)
                         op["done"] = clock()
                         done_order.append(op["j"])
+                        if op["serialized"]:
+                            # everything this operation wrote must have been answered before it reports completion
+                            # (the next queued operation starts at this moment); an upload() queued next publishes at
+                            # once, so its writes may legitimately be on their way already
+                            nxt = ops[op["j"] + 1]["kind"] if op["j"] + 1 < len(ops) else None
+                            pending_w = [rec["label"] for rec in g.calls if rec.get("vf_tick") and rec["method"] == M.WRITE
+                                         and rec["state"] != "answered"]
+                            ck.mon("no-write-outstanding-at-completion")
+                            if pending_w and nxt != "upload" and not any(o["kind"] == "upload" for o in ops):
+                                ck.violation("operation-completes-while-its-write-is-outstanding",
+                                             "%s (op %d) reported completion while storage write(s) %r of the file were "
+                                             "still unanswered: the next queued operation starts before this one finished"
+                                             % (op["kind"], op["j"], pending_w[:3]),
+                                             dict(cfg=desc, wire=mon.log_tail(16)))
                         return None
                     d.addBoth(_done)
                     sent = mon.nsent - before
@@ -394,7 +436,9 @@ def evaluate(ck, cfg, g, c, cap, mon, recorder, setup_records, ops, done_order, 
     from allmydata.mutable.common import MODE_CHECK
     desc = describe_cfg(cfg)
     target = cfg["target"]
-    faults = bool(cfg.get("faults"))
+    faults = bool(cfg.get("faults") or cfg.get("cfaults"))
+    if any(f["fired"] for f in getattr(g, "vf_client_faults", ())):
+        ck.hit("request-failed-with-bare-exception")
     outcomes = []
     for op in ops:
         if not op["box"]:
@@ -498,7 +542,7 @@ def evaluate(ck, cfg, g, c, cap, mon, recorder, setup_records, ops, done_order, 
             ck.hit("operation-succeeds-after-failed-one")
         return
     if target == "file":
-        content, seq, publishes = initial, 1, 0
+        content, seq, publishes = initial, out.get("seq0", 1), 0
         for op, oc in zip(ops, outcomes):
             kind, res = op["kind"], op["box"][0]
             exp_ok, exp_val = True, None
@@ -707,6 +751,19 @@ def random_cfg(rng):
         cfg["damage"] = True
         lead = "download" if target == "file" else "list"
         cfg["ops"] = ops = (lead,) + tuple(o for o in ops[1:])
+    elif target == "file" and rng.random() < .25 or (target == "dir" and rng.random() < .15):
+        # a share number on two servers, one of them slow to answer writes; the burst starts with a writing operation
+        cfg["k"], cfg["n"], cfg["nservers"] = rng.choice([(1, 3, 3), (1, 4, 3), (2, 4, 4), (1, 2, 2), (2, 6, 3)])
+        cfg["dupshare"], cfg["dup_slow"], cfg["dup_delay"] = True, rng.randrange(2), rng.choice([0.5, 3.0, 20.0])
+        first = rng.choice(["overwrite", "modify"]) if target == "file" else rng.choice(["set_node", "set_uri", "delete"])
+        cfg["ops"] = ops = (first,) + tuple(o for o in ops[1:] if o != "upload")
+        if len(cfg["ops"]) < 2:
+            cfg["ops"] = ops = (first, "download" if target == "file" else "list")
+        cfg["how"] = "held"
+    elif rng.random() < .3:
+        cfg["cfaults"] = tuple((rng.randrange(nservers), "slot_readv", rng.randint(1, 2 * nservers + 2),
+                                rng.choice(["ConnectionRefusedError", "TimeoutError", "OSError"]))
+                               for _ in range(rng.randint(1, nservers)))
     elif rng.random() < .3:
         meths = ["slot_readv", "slot_testv_and_readv_and_writev"]
         cfg["faults"] = tuple((rng.randrange(nservers), rng.choice(meths), rng.randint(1, 6))
@@ -839,7 +896,8 @@ def _run(ck):
                        "lookup-returns-requested-cap")
     ck.require_reach("op-failed", "op-succeeded", "operation-judged-after-failed-one", "concurrent-directory-additions",
                      "case-with-server-faults", "download-needed-the-mode-write-fallback",
-                     "node-obtained-by-two-routes", "rename-races-other-directory-edits")
+                     "node-obtained-by-two-routes", "rename-races-other-directory-edits",
+                     "share-number-on-two-servers", "request-failed-with-bare-exception")
     ck.assumptions.append("DFS and ev_first cases run client-local steps before message deliveries; the other random "
                           "cases interleave them freely")
     ck.assumptions.append("exhaustive=true refers only to the DFS configurations counted in dfs_configs_exhausted")
